@@ -1086,6 +1086,21 @@ class SVG:
 
         return self
 
+    def remove_comments(self, inplace=False):
+        # fromstring and parse drop comments while reading; a tree handed to the
+        # constructor may still have them
+        if not inplace:
+            svg = self._clone()
+            svg.remove_comments(inplace=True)
+            return svg
+
+        self._update_etree()
+
+        for el in self.xpath("//comment()"):
+            _safe_remove(el)
+
+        return self
+
     def remove_anonymous_symbols(self, inplace=False):
         # No id makes a symbol useless
         # https://github.com/googlefonts/picosvg/issues/46
@@ -1427,6 +1442,7 @@ class SVG:
         # Discard useless content
         self.remove_nonsvg_content(inplace=True)
         self.remove_processing_instructions(inplace=True)
+        self.remove_comments(inplace=True)
         self.remove_anonymous_symbols(inplace=True)
         self.remove_title_meta_desc(inplace=True)
 
